@@ -279,8 +279,18 @@ def r_gauss_sib(ctx: RuleCtx, col: Collector):
             if isinstance(n, ast.For) and norm(n.iter).endswith(".node_numbering"):
                 pos = [x for x in n.body if isinstance(x, ast.Assign) and isinstance(x.targets[0], ast.Name)
                        and any(isinstance(y, ast.Name) and y.id == n.target.id for y in ast.walk(x.value))]
+                # integration weight by role: the leading name factor of the accumulated integrand in the loop body
+                wname = None
+                for x in n.body:
+                    for y in ast.walk(x):
+                        if isinstance(y, (ast.AugAssign, ast.Assign)) and isinstance(y.value, ast.BinOp):
+                            lead = y.value
+                            while isinstance(lead, ast.BinOp) and isinstance(lead.op, (ast.Mult, ast.MatMult)):
+                                lead = lead.left
+                            if isinstance(lead, ast.Name) and lead.id != n.target.id and wname is None:
+                                wname = lead.id
                 w = [x.value for x in ast.walk(f.node) if isinstance(x, ast.Assign) and isinstance(x.targets[0], ast.Name)
-                     and x.targets[0].id == "w"]
+                     and x.targets[0].id == wname and x not in list(ast.walk(n))]
                 loops.append((c, f, n, pos[0].value if pos else None, w[0] if w else None))
     if len(loops) < 4:
         raise AnalysisError(f"only {len(loops)} element-integration loops found")
@@ -332,7 +342,8 @@ def r_gauss_sib(ctx: RuleCtx, col: Collector):
                 pp = getattr(x, "_parent", None)
                 while pp is not None and pp is not f.node:
                     if isinstance(pp, ast.If):
-                        g = norm(pp.test).replace("domain.dim", "dim")
+                        from .common import expand_names
+                        g = norm(expand_names(f.node, pp.test))
                     pp = getattr(pp, "_parent", None)
                 scaled = f"under '{g}'" if g else "unconditionally"
         users[c.name] = scaled
